@@ -12,7 +12,9 @@ use serde_json::{json, Value};
 pub enum RegSrc {
     Prog(Program),
     /// the Polkadot metadata registry, optionally restricted with `retain({id})`
-    Polkadot { retain: Option<u32> },
+    Polkadot {
+        retain: Option<u32>,
+    },
     Raw(PortableRegistry),
 }
 
@@ -91,7 +93,12 @@ impl Case {
 // helper definitions shared by several drivers
 
 pub fn named(fields: Vec<(&str, Ty)>) -> Fields {
-    Fields::Named(fields.into_iter().map(|(n, t)| (n.to_string(), Field::new(t))).collect())
+    Fields::Named(
+        fields
+            .into_iter()
+            .map(|(n, t)| (n.to_string(), Field::new(t)))
+            .collect(),
+    )
 }
 pub fn unnamed(fields: Vec<Ty>) -> Fields {
     Fields::Unnamed(fields.into_iter().map(Field::new).collect())
@@ -208,7 +215,10 @@ impl Driver for DArms {
         format!("D-arms(depth<={})", self.max_depth)
     }
     fn initial(&self) -> Vec<ArmsState> {
-        arms_leaves().into_iter().map(|expr| ArmsState { expr, depth: 0 }).collect()
+        arms_leaves()
+            .into_iter()
+            .map(|expr| ArmsState { expr, depth: 0 })
+            .collect()
     }
     fn successors(&self, s: &ArmsState, depth: u32) -> Vec<ArmsState> {
         // below depth 1 only the reduced leaf set {u8, N, String} is wrapped twice
@@ -280,7 +290,12 @@ pub fn arms_program(expr: &Ty, pos: Position, compact_attr: bool, n_name: &str) 
             Ty::Named(host, vec![])
         }
         Position::TupleStruct => {
-            defs.push(Def::strukt(&["p", "h"], "Host", &[], Fields::Unnamed(vec![f])));
+            defs.push(Def::strukt(
+                &["p", "h"],
+                "Host",
+                &[],
+                Fields::Unnamed(vec![f]),
+            ));
             Ty::Named(host, vec![])
         }
         Position::NamedVariant => {
@@ -295,7 +310,10 @@ pub fn arms_program(expr: &Ty, pos: Position, compact_attr: bool, n_name: &str) 
                     },
                     Variant {
                         index: Some(7),
-                        ..variant("B", Fields::Named(vec![("f".into(), f), ("y".into(), Field::new(U16))]))
+                        ..variant(
+                            "B",
+                            Fields::Named(vec![("f".into(), f), ("y".into(), Field::new(U16))]),
+                        )
                     },
                 ],
             ));
@@ -332,7 +350,10 @@ pub fn arms_programs(expr: &Ty) -> Vec<(Program, String)> {
     for pos in POSITIONS {
         out.push((arms_program(expr, pos, false, "N"), format!("{pos:?}")));
         if compactable(expr) && pos != Position::Root {
-            out.push((arms_program(expr, pos, true, "N"), format!("{pos:?}+compact")));
+            out.push((
+                arms_program(expr, pos, true, "N"),
+                format!("{pos:?}+compact"),
+            ));
         }
     }
     out
@@ -361,13 +382,15 @@ pub fn faithful_neighbourhood() -> Vec<(String, SettingsSpec)> {
     });
     add("compact_as=none", &|s| s.compact_as = None);
     add("subst=btreemap", &|s| {
-        s.substitutes.push(("BTreeMap".into(), "::sub::KeyedVec".into()))
+        s.substitutes
+            .push(("BTreeMap".into(), "::sub::KeyedVec".into()))
     });
     // a rule whose target does not mention the FIRST source parameter; the target's shape is known to the
     // interpreter (a u8-keyed map, which is what every BTreeMap of these drivers is), so the shape check sees
     // whether the rule hands over the right argument
     add("subst=btreemap-values", &|s| {
-        s.substitutes.push(("BTreeMap<K, V>".into(), "::ext::U8Keyed<V>".into()))
+        s.substitutes
+            .push(("BTreeMap<K, V>".into(), "::ext::U8Keyed<V>".into()))
     });
     v
 }
